@@ -53,18 +53,16 @@ def cfgOf (name : Name) (cfg : Cfg Val) : Option (List (Name × Val)) :=
 
 /-- the value the configuration (or, failing that, the class) gives for key `value`/`default` -/
 def givenFor (key : Name) (classVal : Option Val) (items : List (Name × Val)) : Option Val :=
-  match lookup key items with
-  | some v => some v
-  | none => classVal
+  items.foldl (fun acc kv => if kv.1 = key then some kv.2 else acc) classVal
 
 /-- kinds of erroneous configuration named in the statement, for a parameter that has its own datatype -/
 inductive ParamOffence (ops : Ops DT Val) (pd : ParamDesc DT Val) (dt0 : DT) (items : List (Name × Val)) : Prop
   /-- unknown parameter property, or property value of the wrong type -/
   | badProp : hasBadProp ops dt0 items = true → ParamOffence ops pd dt0 items
   /-- a value of the wrong type (for the datatype after the overrides) -/
-  | badValue (dt' : DT) (key : Name) (x : Val) : dtAfter ops dt0 items = some dt' →
-      (key = "value" ∨ key = "default") → lookup key items = some x → ops.convert dt' x = none →
-      ParamOffence ops pd dt0 items
+  | badValue (dt' : DT) (x : Val) : dtAfter ops dt0 items = some dt' →
+      (givenFor "value" pd.value items = some x ∨ givenFor "default" pd.default items = some x) →
+      ops.convert dt' x = none → ParamOffence ops pd dt0 items
   /-- inverted limits after the overrides -/
   | inverted (dt' : DT) : dtAfter ops dt0 items = some dt' → ops.checkDT dt' = false → ParamOffence ops pd dt0 items
   /-- required value missing -/
@@ -211,8 +209,8 @@ def paramOffenceB (ops : Ops DT Val) (pd : ParamDesc DT Val) (dt0 : DT) (items :
   hasBadProp ops dt0 items ||
   (match dtAfter ops dt0 items with
    | some dt' =>
-     (match lookup "value" items with | some x => (ops.convert dt' x).isNone | none => false) ||
-     (match lookup "default" items with | some x => (ops.convert dt' x).isNone | none => false) ||
+     (match givenFor "value" pd.value items with | some x => (ops.convert dt' x).isNone | none => false) ||
+     (match givenFor "default" pd.default items with | some x => (ops.convert dt' x).isNone | none => false) ||
      !ops.checkDT dt'
    | none => false) ||
   (pd.needscfg && (givenFor "value" pd.value items).isNone)
